@@ -28,6 +28,7 @@ class G:
     def __init__(self, seed):
         self.r = random.Random(seed)
         self.big_p = 0.12      # fraction of medium-size values (sizes 6..24) among the generated ones
+        self.huge_p = 0.008    # fraction of large values (sizes 33..140): block/lane/word-size thresholds
 
     def big(self):
         return self.r.random() < self.big_p
@@ -39,7 +40,9 @@ class G:
         return [self.r.randint(0, hi) for _ in range(n)]
 
     def size(self, hi=4):
-        # favour small sizes, include 0; now and then a medium size
+        # favour small sizes, include 0; now and then a medium size, rarely a large one
+        if hi >= 4 and self.r.random() < self.huge_p:
+            return self.r.choice([33, 40, 63, 64, 65, 70, 100, 127, 128, 129, 140])
         if hi >= 4 and self.big():
             return self.r.randint(6, 24)
         if hi == 3 and self.big():
@@ -190,4 +193,4 @@ def lohg_types(f):
     return [h[0][i] for i in s], [h[0][i] for i in t]
 
 
-BACKENDS = ["vec", "adv"]
+BACKENDS = ["vec", "adv", "adv2"]
